@@ -92,6 +92,9 @@ def gen(rng, tier, no_repl_only=False, region_p=0.25):
         fmt_in = rng.choice(["vcf.gz", "vcf.gz", "pgen"])
         fmt_out = rng.choice([".vcf", ".vcf.gz", ".bcf", ".pgen"])
         case = {"pops": pops, "nsim": nsim, "chroms": [region["chr"]] if region else chroms, "refs": refs, "info": info, "haps": haps, "variants": variants, "prefix": prefix, "region": region, "pop_field": rng.random() < 0.5, "sample_field": rng.random() < 0.5, "no_repl": no_repl, "fmt_in": fmt_in, "fmt_out": fmt_out, "seed": rng.randrange(2**31)}
+        if region is None and len(chroms) == 3 and t % 2 == 1:
+            # the breakpoints cover a chromosome that is not asked for, between two that are (a run on 1,2,3 written out for 1 and 3)
+            case["chroms"] = [chroms[0], chroms[2]]
         if not kept_variants(case):
             continue  # a restriction that leaves no reference variant at all (output_vcf indexes variant 0): not generated
         yield case
